@@ -508,6 +508,7 @@ func runC10(p *an.Prog, r *an.Run, tier string) {
 	checkBigIntOwnership(p, r)
 	// racing withdrawals are serialised by Withdraw's own lock region (C07.exclusive and the rest of the settlement rules)
 	runC07(p, r, tier)
+	checkNoReadaheadLoss(p, r)
 
 	checkAliasEscapesLock(p, r, "alias-escapes-lock", func(fn *ssa.Function) bool { return true })
 
@@ -1047,6 +1048,24 @@ func splitAtomicRMW(p *an.Prog) (out []string, n int) {
 			}
 			if isAtomic(c, "Store") && len(c.Common().Args) == 2 {
 				stores = append(stores, c)
+			}
+		}
+		// an atomic operation on a field of a by-value copy of the parameter (a value receiver) updates the copy: every
+		// caller starts from the same stored value (all requests carry the same id)
+		for _, c := range an.Calls(fn, false) {
+			f := an.CallObj(c)
+			if f == nil || f.Pkg() == nil || f.Pkg().Path() != "sync/atomic" || len(c.Common().Args) == 0 {
+				continue
+			}
+			root, path := an.RootPath(c.Common().Args[0])
+			if al, ok := root.(*ssa.Alloc); ok && path != "" {
+				for _, ref := range *al.Referrers() {
+					if st, ok := ref.(*ssa.Store); ok && st.Addr == ssa.Value(al) {
+						if prm, ok := st.Val.(*ssa.Parameter); ok {
+							out = append(out, an.FuncName(fn)+" applies "+an.ObjString(f)+" at "+p.Pos(c.Pos())+" to "+path+" of a copy of its parameter "+prm.Name()+" (passed by value): the shared counter is never advanced, concurrent and successive callers obtain the same value")
+						}
+					}
+				}
 			}
 		}
 		if len(loads) == 0 || len(stores) == 0 {
